@@ -22,7 +22,7 @@ from hsverif.core import Family, Result, repo_root
 PID = "C03"
 LEVEL = "exploration"
 RULE = (
-    "A case is a batch of 6 scenarios drawn from the shared catalogue of library-component scenarios (all families: "
+    "A case is a batch of 6 scenarios taken in turn from a seed-shuffled permutation of the shared catalogue of library-component scenarios, so the 48 batches of the quick tier execute every one of the 286 scenarios (all families: "
     "sources, queues, servers, networks, consensus, storage, caches, sketches fed with str/bytes/tuple items, messaging, "
     "...; default or hostile parameters) with one seed each, executed in 4 fresh interpreters: PYTHONHASHSEED=0 in "
     "catalogue order; =1 in reverse order; =12345 shuffled with every scenario run twice in a row; =random with "
@@ -52,11 +52,14 @@ def gen(rng: random.Random, tier: str) -> dict:
     from hsverif.scenarios._kit import hostile_params
 
     names = _names()
+    # systematic coverage: batch i takes the next 6 names of a seed-shuffled permutation of the whole
+    # catalogue, so ceil(len/6) batches (= the quick tier) execute every scenario at least once
+    perm = list(names)
+    random.Random(f"{getattr(rng, 'verif_seed', 0)}/c03-perm").shuffle(perm)
+    idx = getattr(rng, "case_index", rng.randrange(10**6))
     items = []
-    for _ in range(6):
-        n = rng.choice(names)
-        if rng.random() < 0.25:
-            n = rng.choice([x for x in names if x.startswith("determinism.") or x.startswith("sketching.") or "hash" in x] or names)
+    for j in range(6):
+        n = perm[(idx * 6 + j) % len(perm)]
         params = hostile_params(rng, tier) if rng.random() < 0.4 else {}
         items.append({"name": n, "seed": rng.randrange(1 << 20), "params": params})
     shuffled = list(range(len(items)))
